@@ -737,6 +737,9 @@ func listVia(events []*Event, how string, mutate func(c *wireEventList)) (*Event
 	return listViaP(events, how, mutate, false)
 }
 
+// listViaReuse: if set, listViaP first parses these events into the object it then reuses
+var listViaReuse []*Event
+
 // listViaP: as listVia; computeProduct asks the decoder to accumulate the product of the events
 func listViaP(events []*Event, how string, mutate func(c *wireEventList), computeProduct bool) (*EventList, bool) {
 	// the wire form of an event list (field names are the public format: i, hash, e), built by the
@@ -752,6 +755,19 @@ func listViaP(events []*Event, how string, mutate func(c *wireEventList), comput
 		mutate(cc)
 	}
 	el := EventList{ComputeProduct: computeProduct}
+	if listViaReuse != nil {
+		// the receiving object has parsed another list before (a reused variable)
+		switch how {
+		case "json":
+			if b, err := json.Marshal(NewEventList(listViaReuse...)); err == nil {
+				_ = json.Unmarshal(b, &el)
+			}
+		default:
+			if b, err := cbor.Marshal(NewEventList(listViaReuse...), cbor.EncOptions{}); err == nil {
+				_ = cbor.Unmarshal(b, &el)
+			}
+		}
+	}
 	switch how {
 	case "json":
 		b, err := json.Marshal(cc)
